@@ -770,7 +770,7 @@ def run(run: Run):
     from .common import borrow
     from . import c18
     run.rule('C06.R10', 'titles, data and sizes handed to the generated class are index-aligned per worksheet (shared with C18.R2)')
-    borrow(run, 'C06.R10', c18.r2, src)
+    borrow(run, 'C06.R10', c18.r2_any, src)
     from .common import check_per_instance_state
     run.rule('C06.R11', 'titles / sizes / overrides of the generated class are per instance')
     run.guard('C06.R11', check_per_instance_state, run, 'C06.R11', get_runtime(get_source()))
@@ -778,7 +778,7 @@ def run(run: Run):
     run.guard('C06.R12', r12_results_are_text, run, src, g, em)
     run.floor('C06.R12', 3)
     run.floor('C06.R11', 6)
-    run.floor('C06.R10', 5)
+    run.floor('C06.R10', 2)
     run.floor('C06.R1', 15)
     run.floor('C06.R2', 60)
     run.floor('C06.R3', 4)
